@@ -1010,6 +1010,31 @@ func (c *Ctx) errorReturned(call *ssa.Call) bool {
 			}
 		}
 		if ret, ok := r.(*ssa.Return); ok && ret.Results[len(ret.Results)-1] == errv {
+			// `if err == nil { ... }; return err`: every return that can be reached from the call hands the error on as it is
+			reach := map[*ssa.BasicBlock]bool{}
+			var walk func(b *ssa.BasicBlock)
+			walk = func(b *ssa.BasicBlock) {
+				if reach[b] {
+					return
+				}
+				reach[b] = true
+				for _, s := range b.Succs {
+					walk(s)
+				}
+			}
+			walk(call.Block())
+			all, any := true, false
+			for b := range reach {
+				if rr, ok := b.Instrs[len(b.Instrs)-1].(*ssa.Return); ok {
+					any = true
+					if rr.Results[len(rr.Results)-1] != errv {
+						all = false
+					}
+				}
+			}
+			if all && any {
+				return true
+			}
 			// `return x, err` without a test: fine when it is not itself conditional on something else than err
 			if len(ret.Block().Preds) == 0 || ret.Block() == call.Block() || ret.Block().Idom() == call.Block() && len(call.Block().Succs) < 2 {
 				return true
